@@ -1,7 +1,7 @@
 (* C03 — stream framing: consumed ++ remainder = input; the result ignores trailing bytes;
    no proper prefix of a completely consumed encoding parses. *)
-From Model Require Import Bytes Prim Tables Cert KAC Sig.
-From Proofs Require Import BytesLemmas PrimProofs Frame LeafProofs KacRT OffProofs.
+From Model Require Import Bytes Prim Tables Cert KAC Mapping Sig LS RI.
+From Proofs Require Import BytesLemmas PrimProofs Frame LeafProofs KacRT OffProofs MapRT UptoRT AppendAll.
 Open Scope Z_scope.
 
 (* general: prefix-freeness is a consequence of append-invariance, for every parser *)
@@ -65,3 +65,46 @@ Proof. exact read_offline_AppendInv. Qed.
 Theorem C03_offline_signature_prefix_free : forall dt, PrefixFree (fun d => read_offline_signature d dt).
 Proof. intros dt. apply AppendInv_PrefixFree, read_offline_AppendInv. Qed.
 Print Assumptions C03_offline_signature_prefix_free.
+
+(* EncryptedLeaseSet and RouterAddress: exactly — same value, remainder extended *)
+Theorem C03_encrypted_lease_set_append : AppendInv read_encrypted_lease_set.
+Proof. exact read_els_AppendInv. Qed.
+Theorem C03_encrypted_lease_set_prefix_free : PrefixFree read_encrypted_lease_set.
+Proof. apply AppendInv_PrefixFree, read_els_AppendInv. Qed.
+Theorem C03_router_address_append : AppendInv read_router_address.
+Proof. exact read_router_address_AppendInv. Qed.
+Theorem C03_router_address_prefix_free : PrefixFree read_router_address.
+Proof. apply AppendInv_PrefixFree, read_router_address_AppendInv. Qed.
+Print Assumptions C03_router_address_prefix_free.
+(* a mapping: same pairs, remainder extended, at most the non-fatal "data beyond" warning added *)
+Theorem C03_mapping_append : forall b m r e y, read_mapping b = Some (m, r, e) -> fatal_errors e = [] ->
+  exists e', read_mapping (b ++ y) = Some (m, r ++ y, e') /\ fatal_errors e' = [].
+Proof. exact read_mapping_app. Qed.
+(* consumed ++ remainder = input for the structures that embed mappings *)
+Theorem C03_router_info_consumed_prefix : forall d i r, wf d -> read_router_info d = Ok (i, r) ->
+  exists b n, router_info_bytes i = Ok b /\ length d = (length b + n + length r)%nat /\ (b ++ r = d <-> n = 0%nat).
+Proof. exact UptoRT.read_router_info_upto. Qed.
+(* LeaseSet2 / MetaLeaseSet: every field but the destination is unchanged, the destination
+   changes only in its certificate's view of trailing bytes (kac_same); hence prefix-freeness *)
+Theorem C03_lease_set2_append : AppendInvR read_lease_set2 ls2_same.
+Proof. exact read_lease_set2_AppendInv. Qed.
+Theorem C03_lease_set2_prefix_free : forall w v, wf w -> read_lease_set2 w = Ok (v, []) ->
+  forall k, (k < length w)%nat -> forall v' r', read_lease_set2 (firstn k w) <> Ok (v', r').
+Proof. exact (AppendInvR_PrefixFree _ _ read_lease_set2_AppendInv). Qed.
+Theorem C03_meta_lease_set_append : AppendInvR read_meta_lease_set meta_same.
+Proof. exact read_meta_lease_set_AppendInv. Qed.
+Theorem C03_meta_lease_set_prefix_free : forall w v, wf w -> read_meta_lease_set w = Ok (v, []) ->
+  forall k, (k < length w)%nat -> forall v' r', read_meta_lease_set (firstn k w) <> Ok (v', r').
+Proof. exact (AppendInvR_PrefixFree _ _ read_meta_lease_set_AppendInv). Qed.
+Print Assumptions C03_meta_lease_set_prefix_free.
+(* RouterInfo: published date, addresses, peer size, options and signature unchanged; the
+   identity changes only in its certificate's view of trailing bytes *)
+Theorem C03_router_info_append : AppendInvR read_router_info ri_same.
+Proof. exact read_router_info_AppendInv. Qed.
+Theorem C03_router_info_prefix_free : forall w v, wf w -> read_router_info w = Ok (v, []) ->
+  forall k, (k < length w)%nat -> forall v' r', read_router_info (firstn k w) <> Ok (v', r').
+Proof. exact (AppendInvR_PrefixFree _ _ read_router_info_AppendInv). Qed.
+Print Assumptions C03_router_info_prefix_free.
+(* LeaseSet (v1): whatever follows the signature is ignored — same value, exactly *)
+Theorem C03_lease_set_ignores_trailing : forall d l y, wf (d ++ y) -> read_lease_set d = Ok l -> read_lease_set (d ++ y) = Ok l.
+Proof. exact read_lease_set_ignores_trailing. Qed.
